@@ -1,4 +1,5 @@
 import GeffModel.Dicts
+import GeffModel.Graph
 /-! # The three graph-library backends (property C03)
 
 Models of `NxBackend.construct` / `_set_property_values` / `NxBackend.write`,
@@ -104,7 +105,7 @@ def nxConstruct (m : MemGeff) : Except Err NxGraph :=
 
 /-- keys of all attribute dicts, first occurrence order (the `set` comprehension; order immaterial) -/
 def propNames {κ : Type} (data : List (κ × Attrs)) : List String :=
-  (data.flatMap (fun d => d.2.map (·.1))).eraseDups
+  Geff.Graph.dedup (data.flatMap (fun d => d.2.map (·.1)))
 
 /-- `NxBackend.write` up to the store: node / edge data handed to `write_dicts` -/
 def nxWrite (g : NxGraph) : Except Err MemGeff :=
@@ -161,40 +162,68 @@ def dictOfZip {κ υ : Type} [DecidableEq κ] : List κ → List υ → List (κ
     | none => (k, v) :: rest
   | _, _ => []
 
+/-- `np.vectorize(to_rx_id_map.__getitem__)` on one edge: `KeyError` for an unknown endpoint -/
+def rxEdgeIdx (toRx : List (Int × Nat)) (e : Int × Int) : Except Err (Nat × Nat) :=
+  match toRx.lookup e.1, toRx.lookup e.2 with
+  | some a, some b => .ok (a, b)
+  | _, _ => .error .keyError
+
+/-- the edge list of `RxBackend.construct` (nothing is done when there are no edges) -/
+def rxEdges (toRx : List (Int × Nat)) (edgeIds : List (Int × Int)) (edgeProps : List (String × Col)) :
+    Except Err (List ((Nat × Nat) × Attrs)) :=
+  if edgeIds.isEmpty then .ok []
+  else
+    match mapE (rxEdgeIdx toRx) edgeIds with
+    | .error e => .error e
+    | .ok idx =>
+      match fillDicts edgeIds.length edgeProps with
+      | .error e => .error e
+      | .ok ds => .ok (idx.zip ds)
+
 /-- `RxBackend.construct` -/
-def rxConstruct (m : MemGeff) : Except Err RxGraph := do
-  let n := m.nodeIds.length
-  let payloads ← fillDicts n m.nodeProps
-  let toRx := dictOfZip m.nodeIds (List.range n)
-  let edges ←
-    if m.edgeIds.isEmpty then pure []
-    else do
-      let idx ← mapE (fun (e : Int × Int) =>
-        match toRx.lookup e.1, toRx.lookup e.2 with
-        | some a, some b => .ok (a, b)
-        | _, _ => .error Err.keyError) m.edgeIds
-      let ds ← fillDicts m.edgeIds.length m.edgeProps
-      pure (idx.zip ds)
-  return { directed := m.directed, slots := payloads.map some, edges := edges, idMap := some toRx }
+def rxConstruct (m : MemGeff) : Except Err RxGraph :=
+  match fillDicts m.nodeIds.length m.nodeProps with
+  | .error e => .error e
+  | .ok payloads =>
+    let toRx := dictOfZip m.nodeIds (List.range m.nodeIds.length)
+    match rxEdges toRx m.edgeIds m.edgeProps with
+    | .error e => .error e
+    | .ok edges => .ok { directed := m.directed, slots := payloads.map some, edges := edges, idMap := some toRx }
 
 /-- `graph.node_indices()` zipped with `graph.nodes()` -/
 def RxGraph.nodeList (g : RxGraph) : List (Nat × Attrs) :=
   (List.range g.slots.length).zip g.slots |>.filterMap fun p => p.2.map fun a => (p.1, a)
 
-/-- `RxBackend.write` up to the store.  `nodeIdDict = none`: rustworkx indices are the geff ids. -/
-def rxWrite (g : RxGraph) (nodeIdDict : Option (List (Nat × Int))) : Except Err MemGeff := do
-  let nl := g.nodeList
-  if nl.isEmpty then
-    writeDicts g.directed [] [] [] []
-  else do
-    let tr : Nat → Except Err Int := fun i =>
-      match nodeIdDict with
-      | none => .ok (Int.ofNat i)
-      | some d => match d.lookup i with
-        | some x => .ok x
-        | none => .error .keyError
-    let nodeData ← mapE (fun (p : Nat × Attrs) => do return (← tr p.1, p.2)) nl
-    let edgeData ← mapE (fun (e : (Nat × Nat) × Attrs) => do return ((← tr e.1.1, ← tr e.1.2), e.2)) g.edges
+/-- the node / edge data `RxBackend.write` hands to `write_dicts`: the attribute graph a rustworkx
+graph denotes.  `nodeIdDict = none`: rustworkx indices are the geff ids; an index without an entry
+in `node_id_dict` is `KeyError`. -/
+def rxDicts (g : RxGraph) (nodeIdDict : Option (List (Nat × Int))) :
+    Except Err (List (Int × Attrs) × List ((Int × Int) × Attrs)) :=
+  let tr : Nat → Except Err Int := fun i =>
+    match nodeIdDict with
+    | none => .ok (Int.ofNat i)
+    | some d => match d.lookup i with
+      | some x => .ok x
+      | none => .error .keyError
+  if g.nodeList.isEmpty then .ok ([], [])
+  else
+    match mapE (fun (p : Nat × Attrs) => match tr p.1 with
+        | .error e => .error e
+        | .ok i => .ok (i, p.2)) g.nodeList with
+    | .error e => .error e
+    | .ok nodeData =>
+      match mapE (fun (e : (Nat × Nat) × Attrs) => match tr e.1.1, tr e.1.2 with
+          | .ok u, .ok v => .ok ((u, v), e.2)
+          | .error x, _ => .error x
+          | _, .error x => .error x) g.edges with
+      | .error e => .error e
+      | .ok edgeData => .ok (nodeData, edgeData)
+
+/-- `RxBackend.write` up to the store -/
+def rxWrite (g : RxGraph) (nodeIdDict : Option (List (Nat × Int))) : Except Err MemGeff :=
+  match rxDicts g nodeIdDict with
+  | .error e => .error e
+  | .ok (nodeData, edgeData) =>
     writeDicts g.directed nodeData edgeData (propNames nodeData) (propNames edgeData)
 
 /-- index of geff id `i` (`to_rx_id_map[i]`; the identity for a graph not built by `construct`) -/
@@ -222,10 +251,14 @@ def RxGraph.hasNode (g : RxGraph) (i : Int) : Bool :=
 def RxGraph.edgeAttr (g : RxGraph) (e : Int × Int) (name : String) : Option PyVal :=
   match g.rxId e.1, g.rxId e.2 with
   | some a, some b =>
-    match g.edges.find? (fun x => x.1 = (a, b) || (!g.directed && x.1 = (b, a))) with
-    | some x => x.2.lookup name
-    | none => none
+    attrOf? (g.edges.find? (fun x => x.1 = (a, b) || (!g.directed && x.1 = (b, a)))) name
   | _, _ => none
+
+/-- `(u, v) in adapter.get_edge_ids()` (either orientation when undirected) -/
+def RxGraph.hasEdge (g : RxGraph) (e : Int × Int) : Bool :=
+  match g.rxId e.1, g.rxId e.2 with
+  | some a, some b => g.edges.any (fun x => x.1 = (a, b) || (!g.directed && x.1 = (b, a)))
+  | _, _ => false
 
 /-! ## spatial-graph -/
 
